@@ -175,7 +175,7 @@ def r11_2(ctx):
             raise AnchorMissing('R11.2: no store to indices[lv][i] in %s_indices' % st)
         for s in stores:
             facts = guards.path_conditions(s)
-            lt = any(('i < lv' in t.replace('(', '').replace(')', '')) and pol for (t, pol, _n) in facts)
+            lt = any(('i < lv' in t.replace('(', '').replace(')', '')) and pol for (t, pol, _n) in facts) or guards.holds_order(facts, 'i', '<', 'lv')
             ctx.decide('R11.2', m.qual, src(s)[:110] + ' under i < lv', lt, s, 'only coarser positions are extended; position lv keeps the new dofs')
             no_dir = any('remove_dirichlet' in t and not pol for (t, pol, _n) in facts)
             v = src(s.value).replace(' ', '')
